@@ -397,6 +397,9 @@ def generate(unit, template_path, repo=None, canary=False):
                 raise AnchorError(f'{path}: arm `{kv["arm"][0]}` not found in {designator}')
             bo, bc = found
             lifted_sig = kv['sig'][0] + (' {' if expr_arm else '')
+            # `fallsthrough`: a statement arm of a match in a function returning Result<()> whose arms fall through to the common `Ok(())`:
+            # the lifted function is `SIG { ARM-BLOCK Ok(()) }` (early `return Err(..)` / `?` inside the block keep their meaning)
+            arm_falls = 'fallsthrough' in flags and not expr_arm
             sl = Slice(src, stt[bo].start, stt[bc].end, (' > '.join(containers) + ' > ' if containers else '') + designator + f' > arm `{kv["arm"][0]}`')
             count('R9', 1)
         g.slices.append(sl)
@@ -419,7 +422,10 @@ def generate(unit, template_path, repo=None, canary=False):
         fi.props = props
         fi.is_fn = designator.startswith('fn ')
         local_heap = set(heapmethods)
-        body = sl.text if lifted_sig is None else lifted_sig + ' ' + sl.text + (' }' if lifted_sig.endswith(' {') else '')
+        if lifted_sig is not None and 'arm' in kv and arm_falls:
+            body = lifted_sig + ' { ' + sl.text + ' Ok(()) }'
+        else:
+            body = sl.text if lifted_sig is None else lifted_sig + ' ' + sl.text + (' }' if lifted_sig.endswith(' {') else '')
         if lifted_sig is not None:
             fi.is_fn = True
         user_rw = []
